@@ -158,13 +158,19 @@ def run(ctx):
         ctx.ok('R-ADVIDX', 'classification', where, 'isarray: int False, numpy int False, slice False, sequence True')
     # 2. the fancy/non-fancy branch on "anyisarray and needsfancy"
     t = norm(fn)
-    if 'anyisarray = np.sum(list(isarray.values())) > 1' not in t or 'needsfancy = sum(isdarray) > 1' not in t:
-        raise AnalysisError('construct not understood: anyisarray / needsfancy definitions')
+    # the test with temporaries substituted (paths.dominating_env): "two or more index sequences in the call, and two or more among
+    # this variable's dimensions", however the two counts are named
+    import re as _re
+    from .. import paths as _paths
     branch = None
     for st in iter_stmts(fn.body):
-        if isinstance(st, ast.If) and norm(st.test) == 'anyisarray and needsfancy' and any(isinstance(n, ast.Subscript) and isinstance(n.value, ast.Name) and n.value.id == 'varo'
-                                                                                             for s2 in iter_stmts(st.body) for n in walk_expr(s2)):
-            branch = st
+        if isinstance(st, ast.If) and any(isinstance(n, ast.Subscript) and isinstance(n.value, ast.Name) and n.value.id == 'varo'
+                                          for s2 in iter_stmts(st.body) for n in walk_expr(s2)):
+            test = _paths.subst(st.test, _paths.dominating_env(fn, st, keep=('isarray', 'varo', 'sliceo', 'vdims')))
+            parts = test.values if isinstance(test, ast.BoolOp) and isinstance(test.op, ast.And) else [test]
+            if len(parts) == 2 and norm(parts[0]) in ('np.sum(list(isarray.values())) > 1', 'sum(isarray.values()) > 1', 'sum(list(isarray.values())) > 1') and \
+                    _re.match(r"^sum\(\[isarray\.get\((\w+), False\) for \1 in [\w\.]+\]\) > 1$", norm(parts[1])):
+                branch = st
     if branch is None:
         raise AnalysisError('construct not understood: fancy / plain branches of sliceDimensions')
 
@@ -286,28 +292,55 @@ def run(ctx):
     # 4a'. the wrapper drops the ROW and COL dimensions only when both were selected by index arrays (finite case analysis)
     ctx.rule('R-DELROWCOL', 'IOAPI wrapper: ROW and COL dimensions are deleted only when both ROW and COL are index arrays')
     from .. import consteval as _ce
-    dset = [st for st in iter_stmts(wf.body) if isinstance(st, ast.Assign) and norm(st.targets[0]) == 'deleterowcol' and isinstance(st.value, ast.Constant) and st.value.value is True]
-    if not dset:
-        ctx.undec('R-DELROWCOL', 'guard', w2, 'deleterowcol = True not found')
+    # by role: the statement(s) deleting outf.dimensions['ROW'/'COL'] and the tests on the way to them; the part of the function
+    # that feeds those tests (backward slice on names) is evaluated by the checker's own evaluator on selector-kind cases, so the
+    # decision may be spelled as nested ifs, one boolean expression, a flag or directly in the guard
+    dels = [st for st in iter_stmts(wf.body) if isinstance(st, ast.Delete) and any(norm(t) in ("outf.dimensions['ROW']", "outf.dimensions['COL']") for t in st.targets)]
+    if not dels:
+        ctx.undec('R-DELROWCOL', 'guard', w2, 'no statement deletes the ROW/COL dimensions of the result')
     else:
-        guards = [p_ for p_ in parent_chain(dset[0]) if isinstance(p_, ast.If)]
-        pre = [st for st in wf.body if isinstance(st, ast.Assign) and len(st.targets) == 1 and isinstance(st.targets[0], ast.Name) and st.lineno < dset[0].lineno
-               and st.targets[0].id not in ('outf', 'dimslices', 'isarray', 'deleterowcol')]
+        guards = [p_ for p_ in parent_chain(dels[0]) if isinstance(p_, ast.If)]
+        guards.reverse()
+        polar = []
+        child = dels[0]
+        for p_ in parent_chain(dels[0]):
+            if isinstance(p_, ast.If):
+                polar.append(child in p_.body or any(child is x for s_ in p_.body for x in ast.walk(s_)))
+            child = p_ if isinstance(p_, ast.stmt) else child
+        polar.reverse()
+        top = guards[0] if guards else dels[0]
+        while getattr(top, '_parent', None) is not wf and getattr(top, '_parent', None) is not None:
+            top = top._parent
+        prefix = wf.body[:wf.body.index(top)] if top in wf.body else []
+        provided = ('isarray', 'dimslices', 'kwds', 'outf', 'self')
+        needed = set(n.id for g_ in guards for n in ast.walk(g_.test) if isinstance(n, ast.Name))
+        pre = []
+        for st in reversed(prefix):
+            stored = set(n.id for n in ast.walk(st) if isinstance(n, ast.Name) and isinstance(n.ctx, ast.Store))
+            if isinstance(st, (ast.FunctionDef, ast.ClassDef)):
+                continue
+            if stored & needed and not (stored & set(provided) and isinstance(st, ast.Assign)):
+                pre.insert(0, st)
+                needed |= set(n.id for n in ast.walk(st) if isinstance(n, ast.Name) and isinstance(n.ctx, ast.Load))
         cases = [({'ROW': True, 'COL': True}, True), ({'ROW': True, 'COL': True, 'LAY': True}, True), ({'ROW': False, 'COL': True, 'LAY': True, 'TSTEP': True}, False),
                  ({'ROW': False, 'COL': False, 'LAY': True, 'TSTEP': True}, False), ({'ROW': True, 'COL': False, 'TSTEP': True}, False), ({'ROW': False, 'COL': False}, False)]
         wrong = unk = None
         for isarr_, want in cases:
-            env = _ce.run_block(pre, {'isarray': dict(isarr_), 'dimslices': dict(isarr_), 'kwds': dict((k_, 0) for k_ in isarr_), 'newdims': ('POINTS',)}, want_env=True)
+            def hook(nd, isarr_=isarr_):
+                if isinstance(nd, ast.Call) and isinstance(nd.func, ast.Name) and nd.func.id == 'isarray' and len(nd.args) == 1 and isinstance(nd.args[0], ast.Constant):
+                    return isarr_.get(nd.args[0].value, _ce.UNK)
+                return None
+            env = _ce.run_block(pre, {'isarray': dict(isarr_), 'dimslices': dict(isarr_), 'kwds': dict((k_, 0) for k_ in isarr_), 'newdims': ('POINTS',)}, hook, want_env=True)
             if env is _ce.UNK:
                 unk = isarr_
                 continue
             val = True
-            for g_ in guards:
-                v_ = _ce.ev(g_.test, env)
+            for g_, pol_ in zip(guards, polar):
+                v_ = _ce.ev(g_.test, env, hook)
                 if v_ is _ce.UNK:
                     val = _ce.UNK
                     break
-                val = val and bool(v_)
+                val = val and (bool(v_) == pol_)
             if val is _ce.UNK:
                 unk = isarr_
             elif bool(val) != want:
@@ -377,38 +410,65 @@ def run(ctx):
     # 4d. a new dimension length that is computed (not measured on the selected values) is right for every slice (finite case analysis)
     from .. import consteval
     ctx.rule('R-SLICELEN', 'new dimension lengths are the size of the selection; a length computed from slice.indices() is checked on forward, reversed, strided, negative-bound and empty slices')
-    ndl = [st for st in iter_stmts(fn.body) if isinstance(st, ast.Assign) and norm(st.targets[0]) == 'newdl']
-    if not ndl:
-        raise AnalysisError('anchor vanished: newdl in sliceDimensions')
-    for st in ndl:
-        v = st.value
+    # path-wise over the loop that derives the lengths, temporaries substituted: what is stored under the loop key on each path
+    lenloops = [st for st in fn.body if isinstance(st, ast.For) and 'dimslices.items()' in norm(st.iter) and isinstance(st.target, ast.Tuple)
+                and len(st.target.elts) == 2 and all(isinstance(e, ast.Name) for e in st.target.elts)]
+    if not lenloops:
+        raise AnalysisError('anchor vanished: loop over dimslices.items() that derives the new dimension lengths in sliceDimensions')
+    kvar, svar = [e.id for e in lenloops[0].target.elts]
+    slice_texts = (svar, 'dimslices[%s]' % kvar)
+    dim_texts = ('dv', 'self.dimensions[%s]' % kvar)
+    nstored = 0
+    seen_sl = set()
+    for pth in _paths.enumerate_paths(lenloops[0].body):
+        res = _paths.expand(pth)
+        if not res.feasible or pth.exit[0] == 'raise':
+            continue
+        stored = [(st, new) for st, new in res.stmts if isinstance(new, ast.Assign) and isinstance(new.targets[0], ast.Subscript)
+                  and isinstance(new.targets[0].value, ast.Name) and norm(new.targets[0].slice) == kvar]
+        if not stored:
+            continue
+        nstored += 1
+        st, new = stored[-1]
+        v = new.value
         tv = norm(v)
-        measured = (isinstance(v, ast.Attribute) and v.attr == 'size' and isinstance(v.value, ast.Subscript)) or \
-            (isinstance(v, ast.Call) and dotted(v.func) == 'len' and v.args and (isinstance(v.args[0], ast.Subscript) or norm(v.args[0]) == 'dv'))
+        if (tv, pth.describe()) in seen_sl:
+            continue
+        seen_sl.add((tv, pth.describe()))
+        measured = (isinstance(v, ast.Attribute) and v.attr == 'size' and isinstance(v.value, ast.Subscript) and norm(v.value.slice) in slice_texts) or \
+            (isinstance(v, ast.Call) and dotted(v.func) == 'len' and v.args and ((isinstance(v.args[0], ast.Subscript) and norm(v.args[0].slice) in slice_texts)
+                                                                                 or (norm(v.args[0]) in dim_texts and res.polarity('%s in dimslices' % kvar) is False)))
         if measured:
             ctx.ok('R-SLICELEN', tv[:50], where, 'length measured on the selected values / the unselected dimension')
             continue
-        block = getattr(st, '_parent', None)
-        body = block.body if isinstance(block, ast.If) and st in block.body else (block.orelse if isinstance(block, ast.If) else [st])
         wrong = unk = None
         samples = [(6, s_) for s_ in ((None, None, None), (1, 4, None), (None, None, 2), (1, 6, 3), (None, None, -1), (4, 1, -1), (2, 1, -1), (5, None, -2), (0, 0, None),
                                        (-2, None, None), (None, -1, None), (3, 100, None), (5, 0, -3))] + [(1, (None, None, -1)), (1, (0, 1, None))]
+        nused = 0
         for n_, s_ in samples:
             sl = slice(*s_)
 
             def hook(nd, n_=n_, sl=sl):
                 if isinstance(nd, ast.Call) and isinstance(nd.func, ast.Attribute) and nd.func.attr == 'indices':
                     return sl.indices(n_)
-                if isinstance(nd, ast.Call) and dotted(nd.func) == 'len' and nd.args and norm(nd.args[0]) in ('dv', 'self.dimensions[dk]'):
+                if isinstance(nd, ast.Call) and dotted(nd.func) == 'len' and nd.args and norm(nd.args[0]) in dim_texts:
                     return n_
-                if isinstance(nd, ast.Attribute) and nd.attr in ('start', 'stop', 'step') and norm(nd.value) in ('ds', 'dimslices[dk]'):
+                if isinstance(nd, ast.Attribute) and nd.attr in ('start', 'stop', 'step') and norm(nd.value) in slice_texts:
                     return {'start': sl.start, 'stop': sl.stop, 'step': sl.step}[nd.attr] if getattr(sl, nd.attr) is not None else ('$none',)
                 if isinstance(nd, ast.Call) and dotted(nd.func) == 'range' and not nd.keywords:
                     a_ = [consteval.ev(x, {}, hook) for x in nd.args]
                     return consteval.UNK if any(x is consteval.UNK for x in a_) else tuple(range(*a_))
                 return None
-            env = consteval.run_block(body, {}, hook, want_env=True)
-            got = env.get('newdl', consteval.UNK) if env is not consteval.UNK else consteval.UNK
+            # is this sample on this path?  (decisions that do not evaluate on constants do not exclude it)
+            on = True
+            for e_, x_, p_ in res.conds:
+                cv = consteval.ev(x_, {}, hook)
+                if cv is not consteval.UNK and bool(cv) != p_:
+                    on = False
+            if not on:
+                continue
+            nused += 1
+            got = consteval.ev(v, {}, hook)
             if got is consteval.UNK:
                 unk = (n_, s_)
                 continue
@@ -422,7 +482,9 @@ def run(ctx):
         elif unk:
             ctx.undec('R-SLICELEN', tv[:50], where, 'length expression outside the evaluated fragment for slice%s' % (unk[1],))
         else:
-            ctx.ok('R-SLICELEN', tv[:50], where, 'computed length equals the number of selected elements on %d sample slices' % len(samples))
+            ctx.ok('R-SLICELEN', tv[:50], where, 'computed length equals the number of selected elements on %d sample slices' % nused)
+    if nstored == 0:
+        raise AnalysisError('anchor vanished: no store of the new length under the loop key in sliceDimensions')
     # 5. functional form: pure slice
     fm = ctx.src.mod('core/_functions.py')
     sd = fm.func('slice_dim')
